@@ -208,7 +208,7 @@ def lexQuote (quote : Char) : Nat → List Char → QSt → QSt × List Char
             | '}' :: rest =>
               let q := { q with stop := q.stop + 1 + h.1.length + 1, idx := q.idx + 1 + h.1.length + 1 }
               let v := valueOf 16 h.1
-              if !h.1.isEmpty && h.1.length ≤ 8 && v < 2 ^ 32 && isScalar v then
+              if quote == '"' && !h.1.isEmpty && h.1.length ≤ 6 && isScalar v then
                 lexQuote quote fuel rest { q with bytes := (utf8 v).reverse ++ q.bytes }
               else lexQuote quote fuel rest (q.fail 162 startOfChar)
             | rest =>
